@@ -26,7 +26,7 @@ fn tables(g: &mut SplitMix64, ncases: usize) {
         let rng = SharedRng::new(g.next());
         let nvars = g.range(1, 4) as usize;
         let mut q = GenQ::new_with_state(nvars, rng.clone(), vec![false; nvars], false);
-        let mut vars_list: Vec<Vec<usize>> = vec![];
+        let mut vars_list: Vec<RegBond> = vec![];
         let nops = g.range(2, 12) as usize;
         let mut toks = vec![];
         let mut outs = vec![];
@@ -41,7 +41,7 @@ fn tables(g: &mut SplitMix64, ncases: usize) {
                 let (mat, vars, d) = gen_interaction(g, nvars);
                 add_interaction(&mut q, &mat, &vars, d).unwrap();
                 toks.push(format!("A!{}:0:{}", list(&vars), rats(&mat)));
-                vars_list.push(vars);
+                vars_list.push(reg(vars, mat));
                 if had_table {
                     rebuilt_after_add = true;
                 }
@@ -62,7 +62,7 @@ fn tables(g: &mut SplitMix64, ncases: usize) {
             let t = smp.table();
             had_table |= t.is_some();
             if oracle.is_ok() {
-                oracle = check_table(&t, &smp.bonds(), must);
+                oracle = check_registered(&smp).and_then(|_| check_table(&t, &smp.bonds(), must));
             }
             outs.push(show_table(&t));
             q = match smp {
@@ -214,7 +214,7 @@ fn pair_tables(g: &mut SplitMix64, ncases: usize) {
         let (ra, rb) = (SharedRng::new(g.next()), SharedRng::new(g.next()));
         let nvars = g.range(1, 4) as usize;
         let mut qs = [GenQ::new_with_state(nvars, ra.clone(), vec![false; nvars], false), GenQ::new_with_state(nvars, rb.clone(), (0..nvars).map(|_| g.coin()).collect::<Vec<bool>>(), false)];
-        let mut vars_list: Vec<Vec<usize>> = vec![];
+        let mut vars_list: Vec<RegBond> = vec![];
         let mut hb = [false, false];
         let mut toks: Vec<String> = vec![];
         let mut outs: Vec<String> = vec![];
@@ -233,7 +233,7 @@ fn pair_tables(g: &mut SplitMix64, ncases: usize) {
                 }
                 toks.push(format!("LA!{}:0:{}", list(&vars), rats(&mat)));
                 toks.push(format!("RA!{}:0:{}", list(&vars), rats(&mat)));
-                vars_list.push(vars);
+                vars_list.push(reg(vars, mat));
                 n_new = 2;
             } else if r < 5 {
                 hb[side] = g.chance(4, 5);
@@ -315,7 +315,7 @@ fn sweeps(g: &mut SplitMix64, nsamplers: usize) {
                 stat("sweeps_warmup_panicked", 1);
                 break;
             }
-            let mut labels = check_labels(&smp, "after a full time step");
+            let mut labels = check_registered(&smp).and_then(|_| check_labels(&smp, "after a full time step"));
             if kind.contains("rvb") {
                 // explicit RVB sweeps (and a cluster step) right before the examined diagonal step; labels checked after each call
                 for _ in 0..g.range(0, 3) {
